@@ -119,6 +119,8 @@ def _project():
         open(os.path.join(d, ".thailint.yaml"), "w").write("nesting:\n  enabled: true\n")
         open(os.path.join(d, "bad.yaml"), "w").write("nesting: [unclosed\n  : :\n")
         open(os.path.join(d, "bad.json"), "w").write("{\"nesting\": ")
+        open(os.path.join(d, "empty.yaml"), "w").write("")
+        open(os.path.join(d, "comment.yaml"), "w").write("# nothing configured yet\n")
         os.mkdir(os.path.join(d, ".git"))
         _PROJ["d"] = d
     return _PROJ["d"]
@@ -128,6 +130,58 @@ def _cli_modules():
     import importlib, pkgutil
     pkg = importlib.import_module("src.cli.linters")
     return [importlib.import_module(m.name) for m in pkgutil.iter_modules(pkg.__path__, "src.cli.linters.")]
+
+
+def _numeric_options():
+    """(command, option) for every integer/float option of a linter command, read from click."""
+    import click
+    import importlib
+    from src.cli_main import cli
+    importlib.import_module("src.cli.linters")
+    out = []
+    for name in catalogue.linter_commands():
+        for p in cli.commands[name].params:
+            if isinstance(p, click.Option) and (p.type in (click.INT, click.FLOAT) or isinstance(p.type, (click.IntRange, click.FloatRange))):
+                out.append((name, p.opts[0]))
+    return tuple(sorted(out))
+
+
+def h_invalid_options(ctx):
+    """A threshold option with a value the linter documents as invalid (non-positive, not a number) is an
+    invalid option: the run exits 2 in every format - it is never silently replaced by the default."""
+    from click.testing import CliRunner
+    from src.cli_main import cli
+    opts = _numeric_options()
+    cmd, opt = ctx.pick("option", opts)
+    value = ctx.pick("value", ("0", "-1", "-999", "abc", "1.5", ""))
+    fmt = ctx.pick("format", ("text", "json", "sarif"))
+    also = ctx.pick("other_options_of_the_command", ("none", "same-invalid-value", "valid-value"))
+    d = triggers_project()
+    args = [cmd, "--format", fmt, opt, value]
+    for c2, o2 in opts:
+        if c2 == cmd and o2 != opt and also != "none":
+            args += [o2, value if also == "same-invalid-value" else "7"]
+    res = CliRunner().invoke(cli, args + [str(d)], catch_exceptions=True)
+    ctx.note("command", cmd)
+    ctx.cover("exit%d" % res.exit_code)
+    ctx.require("no-uncaught-exception", res.exception is None or isinstance(res.exception, SystemExit), exc=repr(res.exception))
+    ctx.require("invalid-option-value-exits-2", res.exit_code == 2, got=res.exit_code, args=args[:-1], out=res.output[-200:])
+
+
+_TP = {}
+
+
+def triggers_project():
+    """A real project that triggers the linters owning numeric options (per process)."""
+    from pathlib import Path
+    from vsym import triggers
+    if _TP.get("pid") != os.getpid():
+        d = tempfile.mkdtemp(prefix="c06real-")
+        atexit.register(shutil.rmtree, d, True)
+        triggers.write_project(d, names={"nest.py", "srp.ts", "dup1.py", "dup2.py", "magic.py", "unwrap.rs"})
+        (Path(d) / "src" / "loop.py").write_text("def g(items):\n    out = []\n    for i in items:\n        if not i:\n            continue\n        out.append(i)\n    return out\n")
+        _TP.update(pid=os.getpid(), d=Path(d))
+    return _TP["d"]
 
 
 def h_exit_codes(ctx):
@@ -142,7 +196,7 @@ def h_exit_codes(ctx):
     fmt = ctx.pick("format", ("text", "json", "sarif"))
     mode = ctx.pick("mode", ("run", "stub-raises-RuntimeError", "stub-raises-OSError", "missing-path", "existing-then-missing-path", "missing-then-existing-path",
                              "missing-config", "malformed-yaml-config", "malformed-json-config",
-                             "bad-format-option"))
+                             "bad-format-option", "empty-config-file", "comment-only-config-file"))
     own_ids = [i for i in universe if catalogue.owns(cmd, i)]
     foreign_ids = [i for i in universe if not any(catalogue.owns(c, i) for c in cmds if
                                                    catalogue.CMD_PREFIX[c] == catalogue.CMD_PREFIX[cmd]
@@ -178,6 +232,10 @@ def h_exit_codes(ctx):
         args += ["--config", os.path.join(d, "bad.yaml")]
     elif mode == "malformed-json-config":
         args += ["--config", os.path.join(d, "bad.json")]
+    elif mode == "empty-config-file":
+        args += ["--config", os.path.join(d, "empty.yaml")]
+    elif mode == "comment-only-config-file":
+        args += ["--config", os.path.join(d, "comment.yaml")]
     elif mode == "bad-format-option":
         args = [cmd, "--format", "xml"]
     args.append(target)
@@ -197,6 +255,10 @@ def h_exit_codes(ctx):
     ctx.cover("exit%d" % code)
     ctx.require("no-uncaught-exception", res.exception is None or isinstance(res.exception, SystemExit),
                 exc=repr(res.exception))
+    if mode in ("empty-config-file", "comment-only-config-file"):
+        # an empty configuration is a valid one: the run is performed (the stub reports no violation)
+        ctx.require("empty-config-is-not-an-error", code == 0, got=code, out=res.output[-300:])
+        return
     if mode != "run":
         ctx.require("usage-error-exits-2", code == 2, got=code, out=res.output[-300:])
         return
@@ -241,6 +303,11 @@ def obligations(tier):
            timeout=200, workers=12, must_cover=("n=0", "n=1", "n=3"), witnesses=40 if tier == "quick" else 200,
            stubs=("json.dumps recorder in cli_utils (symbolic runs only)", "click.echo capture"),
            outside="surrogate-escaped bytes / lone surrogates (C codec calls, not symbolic)"),
+        Ob(name="K2c-invalid-option-values", engine="pathex", harness=h_invalid_options,
+           functions=["every integer/float option of every linter command (discovered from click)", "_apply_*_config_override / set_config_value",
+                      "<Linter>Config.__post_init__ validation", "handle_linting_error"],
+           bounds="forked: every numeric option x values {0, -1, -999, abc, 1.5, ''} x 3 formats x the command's other numeric options {absent, same invalid value, valid value}; real lint run on a project that triggers the linters",
+           timeout=600, workers=14, must_cover=("exit2",)),
         Ob(name="K2-exit-codes-every-command", engine="pathex", harness=h_exit_codes,
            functions=["every click command under src.cli.linters (via src.cli_main.cli)", "_execute_*_lint",
                       "_run_*_lint filters", "run_linter_command", "handle_linting_error",
